@@ -462,14 +462,36 @@ func VerifC34List() {
 	verifC34Check([]rune(verifC34ListLines[rt.Choice("line", len(verifC34ListLines))]))
 }
 
-// verifC34KnownEmptyQuoted: an empty quoted string ('' or "") directly after a blank - an empty
+// verifC34KnownEmptyQuoted: a quoted string without any word character or with a blank in it
+// ('', "", ' ', ';', ' out') at command position (start of the
+// line, after a blank or a flow token) - an empty
 // command name: the tokenizer calls the line safe although murex then runs something that is
 // not on the list (an empty name resolves to the first PATH directory; with parameters the first
 // parameter is run as the command: `"" rm x` runs rm).
 func verifC34KnownEmptyQuoted(line []rune) bool {
-	for i := 0; i+2 < len(line); i++ {
-		if (line[i] == ' ' || line[i] == '\t') && (line[i+1] == '\'' || line[i+1] == '"') && line[i+2] == line[i+1] {
-			return true
+	for i := 0; i+1 < len(line); i++ {
+		if line[i] != '\'' && line[i] != '"' {
+			continue
+		}
+		j := i + 1
+		blank, word := false, false
+		for j < len(line) && line[j] != line[i] {
+			if !isBareChar(line[j]) {
+				blank = true // anything that is not a plain word character
+			}
+			if isBareChar(line[j]) {
+				word = true
+			}
+			j++
+		}
+		if j < len(line) && line[j] == line[i] && (blank || !word) {
+			if i == 0 {
+				return true
+			}
+			switch line[i-1] {
+			case ' ', '\t', '\n', '|', ';', '&', '>', '{', '(':
+				return true
+			}
 		}
 	}
 	return false
